@@ -522,3 +522,8 @@ func TestVerif_C33(t *testing.T) {
 	s.EnableSentinel()
 	kit.Run(s, "inner_machine_call_sequences", kit.N{Quick: 6000, Thorough: 300000}, c33Gen, c33Check)
 }
+
+// FuzzVerif_C33: native coverage-guided fuzzing of inner-machine call sequences (thorough tier).
+func FuzzVerif_C33(f *testing.F) {
+	kit.Fuzz(f, "C33", "inner_machine_call_sequences", c33Gen, c33Check)
+}
